@@ -192,10 +192,14 @@ class _CommonVisitors(visitor.NodeVisitor):
 
     def visit_Call(self, node: ast.Call) -> ClauseElement:
         ":meta private:"
+        # A namespaced function (`geo.length`, `my.func`) is a different function
+        # than the built-in with the same bare name:
+        func_name = node.func.full_name().replace(".", "__")
+
         try:
-            handler = getattr(self, "func_" + node.func.name.lower())
+            handler = getattr(self, "func_" + func_name.lower())
         except AttributeError:
-            raise ex.UnsupportedFunctionException(node.func.name)
+            raise ex.UnsupportedFunctionException(func_name)
 
         return handler(*node.args)
 
